@@ -226,7 +226,72 @@ def canon_obj(inst, classes, name_of, original=None):
     return ['obj', {'cls': cls, 'attrs': attrs}]
 
 
+_UNLOADABLE = []
+
+
+def unloadable_loader_probe():
+    """Implementation-only probe (no model term: in the model every recorded loader can be resolved), once per run: a state that
+    records a loader which can no longer be loaded is rejected with ValueError — never silently resolved through another loader."""
+    if _UNLOADABLE:
+        return _UNLOADABLE[0]
+    from plumpy import persistence, loaders
+    import procs
+    out = {}
+    import plumpy
+    try:
+        loaders.set_object_loader(None)
+
+        @persistence.auto_persist('a')
+        class Old(persistence.Savable):
+            pass
+
+        @persistence.auto_persist('a')
+        class New(persistence.Savable):
+            pass
+        for k, name in ((Old, 'ProbeOldC19'), (New, 'ProbeNewC19')):
+            k.__module__ = 'procs'
+            k.__qualname__ = name
+            k.__name__ = name
+            setattr(procs, name, k)
+
+        class AliasLoader(plumpy.DefaultObjectLoader):
+            """publishes the stable name of Old for the class New (a renamed class kept loadable under its old name)"""
+
+            def identify_object(self, obj):
+                return 'procs:ProbeOldC19' if obj is New else super().identify_object(obj)
+
+            def load_object(self, identifier):
+                return New if identifier == 'procs:ProbeOldC19' else super().load_object(identifier)
+        AliasLoader.__module__ = 'procs'
+        AliasLoader.__qualname__ = 'AliasLoaderC19'
+        AliasLoader.__name__ = 'AliasLoaderC19'
+        procs.AliasLoaderC19 = AliasLoader
+        o = New.__new__(New)
+        o.a = 1
+        st = o.save(persistence.LoadSaveContext(loader=AliasLoader()))
+        del procs.AliasLoaderC19                   # the module that defined the loader is gone / was renamed
+        try:
+            new = persistence.Savable.load(copy.deepcopy(st))
+            out['outcome'] = ['loaded', type(new).__name__]
+        except ValueError:
+            out['outcome'] = ['value_error']
+        except Exception as e:  # noqa: BLE001
+            out['outcome'] = ['other_error', type(e).__name__]
+    except Exception as e:  # noqa: BLE001
+        out['outcome'] = ['probe_error', repr(e)[:200]]
+    finally:
+        loaders.set_object_loader(None)
+    _UNLOADABLE.append(out)
+    return out
+
+
 def run_impl(case):
+    obs = _run_impl(case)
+    obs['unloadable_loader'] = unloadable_loader_probe()
+    return obs
+
+
+def _run_impl(case):
     warnings.simplefilter('ignore')
     import plumpy
     from plumpy import persistence, loaders
@@ -363,6 +428,9 @@ def classes_in(o):
 
 
 def oracle(case, obs):
+    up = obs.get('unloadable_loader') or {}
+    if up.get('outcome') and up['outcome'] != ['value_error']:
+        return {'signature': 'state_with_unloadable_recorded_loader_not_rejected', 'kind': str(up['outcome'])}
     exp = expected_members(case, case['obj'])
     if exp is None:
         if obs['saved'] is not None:
